@@ -31,7 +31,11 @@ where
     const SIZE_OF_T: usize = size_of::<T>();
 
     pub(crate) fn from_region(region: &Region, stored_len: usize) -> Self {
+        #[cfg(anydb_verif)]
+        rawdb::verif_tap::pause("vec-reader:after-len");
         let reader = region.create_reader();
+        #[cfg(anydb_verif)]
+        rawdb::verif_tap::pause("vec-reader:after-reader");
         let slice = reader.prefixed(HEADER_OFFSET);
         let ptr = slice.as_ptr();
 
